@@ -38,3 +38,8 @@ claim("C14",
  "Static, for all rule sets and tag positions: decides that the sorted stop-tag variants read the tag after each rule execution on every path to the next iteration and leave the loop at its normal exit, that the mix variant reads it after the first rule and gates every goroutine start on it, that each tagged function differs from its untagged sibling only by reads of the tag (branch-condition and call multisets), and that pool wrappers pass the caller's tag through. Right level: 'no further rule starts' is a reachability statement about the loop's CFG.",
  "Trusted: go/types + go/ssa. Not decided: races on the host's own Stag value.",
  "CFG must-pass-through / guard analysis (A3-T), sibling cross-check of condition and call multisets, argument identity, over go/ssa")
+
+claim("C18",
+ "Static, for every conc block and interleaving: decides in ConcStatement.Evaluate the Add/Done/Wait pairing with symbolic count agreement over the four child slices (exhaustive over the struct's slice fields), one worker per goroutine on a per-iteration copy, Done after the work and once, Wait on every path to any return or read of the error list, every worker error tested and appended under the mutex and surfaced after the join; that Statement.Evaluate runs the block synchronously; that every access to a map[string]reflect.Value (local store, injected table) is in package context under the matching mutex; that the listener attaches every child. Right level: 'the next statement sees everything' follows from the join shape under the Go memory model for all schedules.",
+ "Trusted: go/types + go/ssa, sync contracts. Effects of the child statements themselves are C02/C03.",
+ "fork/join analysis (A4) with symbolic length sums, lockset analysis (A5) of the two stores, over go/ssa")
